@@ -200,7 +200,10 @@ def add_random(rng, model, shadow, kind, d, m, pool, n=None):
         if rng.random() < 0.5:
             k = int(rng.integers(m))
             y = rng.normal(size=n)
-            model.add_sample(Xin.copy(), y.copy(), k)
+            hx, hy = Xin.copy(), y.copy()
+            model.add_sample(hx, hy, k)
+            hx[...] = np.nan  # the caller re-uses its buffers
+            hy[...] = np.nan
             shadow.add(X, y, k)
             return ("add", n, k)
         ks = [int(v) for v in rng.integers(m, size=n)]
@@ -209,7 +212,10 @@ def add_random(rng, model, shadow, kind, d, m, pool, n=None):
         shadow.add(X, y, ks)
         return ("add", n, ks)
     Y = rng.normal(size=(n, m))
-    model.add_sample(Xin.copy(), Y.copy())
+    hx, hy = Xin.copy(), Y.copy()
+    model.add_sample(hx, hy)
+    hx[...] = np.nan  # the caller re-uses its buffers
+    hy[...] = np.nan
     shadow.add(X, Y)
     return ("add", n)
 
@@ -441,6 +447,27 @@ def factory(mon, rng, kind, real_train):
         mon.violation("gp:factory-sample-count", f"{label}: model reports {held} samples, {cnt} requested", {"cnt": cnt})
     Xte = rng.random((int(rng.choice([1, 3, 5])), d))
     compare_predict(mon, model, kind, shadow, Xte, label, [("factory", cnt)])
+    # a second wrapper built from exactly the same arguments must be independent of the first
+    saved = cls.train
+    if not real_train:
+        cls.train = lambda self: None
+    try:
+        if kind == "modellist":
+            twin = get_gpytorch_modellist_w_known_hyperparams(Prob(), noise, cnt, X=X, Y=Y)
+        else:
+            twin = get_gpytorch_model_w_known_hyperparams(cls, Prob(), noise, cnt, X=X, Y=Y)
+        Xn = rng.random((3, d))
+        if kind == "modellist":
+            twin.add_sample(Xn, rng.normal(size=3) * 3, 0)
+        else:
+            twin.add_sample(Xn, rng.normal(size=(3, m)) * 3)
+        twin.update()
+        mon.count("factory_twin_events")
+        compare_predict(mon, model, kind, shadow, Xte, label + "/after-twin-update", [("factory", cnt), ("twin-update",)])
+    except Exception as e:
+        mon.violation(f"gp:factory-crash:{type(e).__name__}:{kind}", f"{label} (second wrapper): {e!r}", {"cnt": cnt})
+    finally:
+        cls.train = saved
 
 
 def directed(mon):
